@@ -223,12 +223,35 @@ Fixpoint possi_loop (fuel : nat) (p : possi) (rel : relation) (i : str) : outcom
   end.
 Definition fresh : possi := {| p_name := []; p_arch := None;
   p_archs := Some {| a_not := false; a_list := [] |}; p_stages := []; p_ver := None; p_subst := false |}.
+(* (r15) a qualifier or a restriction with no package name in front of it: the loop ends at a separator without having
+   added a possibility, yet it has consumed something - refused, not dropped *)
+Definition nameless (rel rel' : relation) (i r : str) : bool :=
+  Nat.eqb (List.length rel') (List.length rel) && negb (Nat.eqb (List.length r) (List.length i)).
+Definition guard_possi (rel : relation) (i : str) (o : outcome (relation * str)) : outcome (relation * str) :=
+  match o with
+  | Ok (rel', r) => if nameless rel rel' i r then Err else Ok (rel', r)
+  | Err => Err
+  | OutOfFuel => OutOfFuel
+  end.
 Definition parse_possibility (fuel : nat) (rel : relation) (i : str) : outcome (relation * str) :=
   let i := eat_ws i in
   if eqc (peek i) 36 then
     match parse_substvar i with
     | Ok (p, i) => Ok (rel ++ [p], i) | Err => Err | OutOfFuel => OutOfFuel end
-  else possi_loop fuel fresh rel i.
+  else guard_possi rel i (possi_loop fuel fresh rel i).
+Lemma guard_added rel i p r : guard_possi rel i (Ok (rel ++ [p], r)) = Ok (rel ++ [p], r).
+Proof.
+  unfold guard_possi, nameless. rewrite app_length. cbn [List.length].
+  replace (Nat.eqb (List.length rel + 1) (List.length rel)) with false by (symmetry; apply Nat.eqb_neq; rewrite Nat.add_1_r; apply Nat.neq_succ_diag_l).
+  reflexivity.
+Qed.
+Lemma guard_same rel i : guard_possi rel i (Ok (rel, i)) = Ok (rel, i).
+Proof. unfold guard_possi, nameless. now rewrite !Nat.eqb_refl. Qed.
+Lemma guard_ok_inv rel i o x : guard_possi rel i o = Ok x -> o = Ok x.
+Proof. unfold guard_possi. destruct o as [[rel' r]| |]; try discriminate. destruct (nameless rel rel' i r); [discriminate|auto]. Qed.
+Lemma guard_nofuel rel i o : o <> OutOfFuel -> guard_possi rel i o <> OutOfFuel.
+Proof. unfold guard_possi. destruct o as [[rel' r]| |]; try congruence. destruct (nameless rel rel' i r); discriminate. Qed.
+Lemma guard_err rel i : guard_possi rel i Err = Err. Proof. reflexivity. Qed.
 
 (* parseRelation *)
 Fixpoint relation_loop (fuel : nat) (rel : relation) (d : dep) (i : str) : outcome (dep * str) :=
